@@ -114,6 +114,18 @@ claim("C16", "model_checking",
       "diagnostics options. All logs validated by TLC (Trace_Obs).",
       OBS_NOTE, "TLA+ Obs spec + entry-point / diagnostics observations validated as traces")
 
+claim("C07", "model_checking",
+      "spec/Report.tla: the failures printed for a file must form a sequence accepted by the guards of Failure (line exists, column in "
+      "the line or one past its end -- raw or tab-expanded reading --, sorted by (line, column, rule id), no duplicate) and the scan must "
+      "end without a plugin error. MC_Report checks that the guards imply in-range / sorted / duplicate-free. Every scan is one trace "
+      "validated by TLC (Trace_Report): line-end / encoding shapes, rule-family documents, test/resources/rules, project documentation, "
+      "a fixed pool of 6000 generated documents (VERIF_SEED picks the subset in quick) and a fixed pool of 8000 systematic "
+      "container x leaf x leaf x leaf documents (all of them under 'all rules' in quick), under the default set, all rules, and each "
+      "rule alone (rotation in quick, all 46 in thorough); repeated scans are validated against Trace_Obs.",
+      "Trusted: TLC; parsing of the report lines; line lengths computed from the file's text with universal newlines. Documents that do "
+      "not parse are C01's business and are skipped (counted). Known defects of the pinned tree are listed per document in known/C07.tsv.",
+      "TLA+ Report spec + batched trace validation of every scan's printed failures")
+
 # ---------------------------------------------------------------------------------------------
 if __name__ == "__main__":
     props = [json.loads(l) for l in open("properties.jsonl")]
